@@ -188,8 +188,8 @@ func checkDecode(data []byte, maxArray int) (*finding, string, error) {
 		return ""
 	}
 	v := verdict(res)
-	if res.Alloc > 32<<20 {
-		debug.FreeOSMemory()
+	if res.Alloc > 16<<20 {
+		runtime.GC() // free the big block now, the next run must be able to reuse its address space
 	}
 	if v == "" {
 		return nil, res.Outcome, nil
@@ -197,8 +197,8 @@ func checkDecode(data []byte, maxArray int) (*finding, string, error) {
 	// deterministic code: the same verdict 5 more times
 	for i := 0; i < 5; i++ {
 		r2 := decodeOnce(data, maxArray, true)
-		if r2.Alloc > 32<<20 {
-			debug.FreeOSMemory()
+		if r2.Alloc > 16<<20 {
+			runtime.GC()
 		}
 		if v2 := verdict(r2); v2 != v {
 			return nil, res.Outcome, fmt.Errorf("verdict not reproducible for %s: %q then %q", phase, v, v2)
@@ -210,7 +210,6 @@ func checkDecode(data []byte, maxArray int) (*finding, string, error) {
 			Msg: fmt.Sprintf("%s panics: %s", phase, res.Panic)}, "panic", nil
 	}
 	fn, where := allocSite(func() { ggml.Decode(bytes.NewReader(data), maxArray) })
-	debug.FreeOSMemory()
 	return &finding{Sig: "C10/alloc/" + fn + "/" + allocWhat(fn), Where: where, Phase: phase,
 		Msg: fmt.Sprintf("%s allocates %d bytes for a %d-byte input (bound %d = 1 MiB + 256*len); result: %s",
 			phase, res.Alloc, len(data), allocLimit(len(data)), res.Outcome)}, "alloc:" + res.Outcome, nil
@@ -319,50 +318,41 @@ func clip(b []byte) string {
 	return s
 }
 
-// checkResponse: 200 (201 for blobs) with a JSON body (every line, when
-// streamed), or an error status with a JSON body that has an "error" member.
-// A 5xx with an empty body produced by gin's recovery middleware is accepted as
-// "an error response" (weaker reading) and counted as an observation.
+// checkResponse applies the response clause: the request must get a response
+// that is either a success (2xx) or an error status (4xx/5xx). The property
+// asks for "an error response", not for a particular body, so bodies are only
+// observed: a 2xx whose body is not JSON, an error status without a JSON error
+// member, or an empty 5xx written by gin's recovery middleware are counted as
+// observations, not violations.
 func checkResponse(name string, w *httptest.ResponseRecorder, stream bool, obs *[]string) *finding {
 	code := w.Code
 	body := w.Body.Bytes()
 	switch {
-	case code == http.StatusOK || code == http.StatusCreated:
-		if name == "blob" || len(bytes.TrimSpace(body)) == 0 && name == "blob" {
+	case code >= 200 && code <= 299:
+		if name == "blob" {
 			return nil
 		}
 		if stream {
-			lines := bytes.Split(bytes.TrimSpace(body), []byte("\n"))
-			for _, ln := range lines {
-				if len(bytes.TrimSpace(ln)) == 0 {
-					continue
-				}
-				if !validJSON(ln) {
-					return &finding{Sig: "C10/http/" + name + "/garbage-in-stream", Phase: "http " + name,
-						Msg: fmt.Sprintf("%s: status %d but a streamed line is not JSON: %q", name, code, clip(ln))}
+			for _, ln := range bytes.Split(bytes.TrimSpace(body), []byte("\n")) {
+				if len(bytes.TrimSpace(ln)) > 0 && !validJSON(ln) {
+					*obs = append(*obs, fmt.Sprintf("%s: status %d but a streamed line is not JSON: %q", name, code, clip(ln)))
+					break
 				}
 			}
 			return nil
 		}
 		if !validJSON(body) {
-			return &finding{Sig: "C10/http/" + name + "/200-without-json", Phase: "http " + name,
-				Msg: fmt.Sprintf("%s: status %d with a body that is not JSON: %q", name, code, clip(body))}
+			*obs = append(*obs, fmt.Sprintf("%s: status %d with a body that is not JSON: %q", name, code, clip(body)))
 		}
 		return nil
 	case code >= 400 && code <= 599:
-		if len(bytes.TrimSpace(body)) == 0 && code >= 500 {
-			*obs = append(*obs, fmt.Sprintf("%s: status %d with empty body", name, code))
-			return nil
-		}
 		if !hasErrorMember(body) {
-			// streamed creates answer 200; everything else must carry {"error":...}
-			return &finding{Sig: "C10/http/" + name + "/error-status-without-json-error", Phase: "http " + name,
-				Msg: fmt.Sprintf("%s: status %d with body %q (no JSON error member)", name, code, clip(body))}
+			*obs = append(*obs, fmt.Sprintf("%s: status %d without a JSON error member: %q", name, code, clip(body)))
 		}
 		return nil
 	}
-	return &finding{Sig: fmt.Sprintf("C10/http/%s/unexpected-status", name), Phase: "http " + name,
-		Msg: fmt.Sprintf("%s: unexpected status %d body %q", name, code, clip(body))}
+	return &finding{Sig: fmt.Sprintf("C10/http/%s/neither-success-nor-error-status", name), Phase: "http " + name,
+		Msg: fmt.Sprintf("%s: status %d body %q is neither a success nor an error response", name, code, clip(body))}
 }
 
 type httpOutcome struct {
